@@ -29,6 +29,12 @@ CHECKS = {
  "C17": dict(technique="static analysis: rustc Freeze facts for every key type, public-API census for &mut keys, unsafe Send/Sync impl census, pointer-provenance rule for FFI arguments vs binding mutability, const->mut cast scan, statics census",
    text="Type-level argument: all key types are Freeze, no public API takes a key by &mut, the only unsafe Send/Sync impls are the two aws-lc key wrappers whose &self methods pass self-derived pointers only to *const FFI parameters with no const->mut cast, and no static mut / interior-mutable static / thread_local exists — so neither interleavings nor failed operations can change a key. Thread-safety of the C libraries for const access is their contract.",
    ref="DESIGN.md §4 C17"),
+ "C18": dict(technique="static analysis: impl census from the compiler's coherence data plus a compile-fail probe catalogue with compiling twins, type-checked by rustc against this build's rmeta",
+   text="rustc is the checker: (a) census of every formatting/serde impl on keys, unsealed tokens and secret-bearing backend structs, of the marker-trait impls and of public accessors returning key bytes; (b) 37 misuse programs x 6 backends must each be rejected with the expected error while their twins (identical but for the offending line) and 4 correct programs per backend compile. The catalogue is finite and enumerated completely on every run; programs outside it are covered only by the census.",
+   ref="DESIGN.md §4 C18", note="Trusts rustc's type and coherence checking. Obligations = census rows + probe/twin pairs; all must be discharged."),
+ "C19": dict(technique="static analysis: cargo/rustc type-check of feature closures, syn-based pre-expansion cfg scan (subtractive gates only), per-function normalised-MIR digest equality between reduced and full configurations",
+   text="Every feature set checked type-checks (quick: none/default/each single flag per crate + core/json variants; thorough: all 45 distinct closures per crate); every #[cfg] is a positive item-level feature predicate (no cfg on statements/expressions/fields, no not(), cfg!, cfg_attr), so features only add items; functions present in a reduced build compile to the same normalised MIR as in the full build. Additivity of dependency features is cargo's contract.",
+   ref="DESIGN.md §4 C19"),
  "C08": dict(technique="static analysis: exact-length closure and validator must-pass rules over enumerated decode paths, symbolic encode∘decode composition with a table of inverse library pairs, component-wise Clone check, public-key derivation terms",
    text="For every HasKey impl (6 backends x 5 kinds): decode is closed by the kind's exact width, encode(decode(b)) = b symbolically (no canonicalising/truncating decoder), each success path passes the key type's validating constructor, Ed25519 secret decoders re-derive and compare the public half, manual Clone impls are component-wise, public_key() is the scheme's public key of that secret and equals the embedded half. One known finding (D7: libsodium public keys are length-checked only) is listed in known_findings.json.",
    ref="DESIGN.md §4 C08"),
@@ -53,7 +59,7 @@ CHECKS = {
 }
 NA = {}
 m = {"version": 1,
- "setup_cmd": "cd /verif/driver && CARGO_NET_OFFLINE=true cargo +nightly build --release --offline && cd /verif && python3 sa/extract.py",
+ "setup_cmd": "cd /verif/driver && CARGO_NET_OFFLINE=true cargo +nightly build --release --offline && cd /verif/cfgscan && CARGO_NET_OFFLINE=true cargo build --release --offline && cd /verif && python3 sa/extract.py && python3 sa/features.py --warm",
  "hooks": {"guard": "paseto_rs_verif", "enable": "none needed: static analysis reads /repo sources as they are (no instrumentation commits)",
            "baseline_off_cmd": "cd /repo && cargo test --workspace --no-fail-fast --offline", "source_commits": [], "add_only": True},
  "engines": [
